@@ -13,10 +13,12 @@ unconstrained pattern) in which every phase touches exactly one source or plan f
      another job count and schedule or as a watch-mode rebuild without edits: no command may
      run, the canonical graph text (digests included) and the bytes, mtime and inode of every
      file must be unchanged.
- (2) After a phase that edited source files only, every executed command must belong to the cone
-     of the edit: the least set of steps closed under "consumes an edited file or matches it
-     with a glob pattern", "consumes an output of a step in the set", "was declared by a step in
-     the set", computed on the union of the graphs before and after the rebuild.
+ (2) After a phase that edited source files only, every executed command must be justified as the
+     property says: the executed steps must all lie in the least subset of the *executed* steps
+     closed under "consumes an edited file or matches it with a glob pattern", "consumes an
+     output of a step in the set", "was declared by a step in the set" (edges from the union of
+     the graphs before and after the rebuild).  A step declared by a plan that was only
+     re-checked and skipped is not justified by that plan.
 """
 
 from __future__ import annotations
@@ -98,8 +100,8 @@ def evaluate(initial, events, source_only, sim_seed, noop_seeds):
 
     def check_cone(before, after, edited, phase):
         summary["cone_checks"] += 1
-        cone = buildkit.cone([before.graph_canon, after.graph_canon], set(edited))
         executed = ["step:" + x.label for x in after.runs]
+        cone = buildkit.cone([before.graph_canon, after.graph_canon], set(edited), set(executed))
         summary["cone_executed"] += len(executed)
         summary["cone_nonempty"] += bool(executed)
         outside = sorted({k for k in executed if k not in cone})
